@@ -9,6 +9,8 @@ import (
 	"os"
 	"path/filepath"
 	"runtime/debug"
+	"strconv"
+	"syscall"
 
 	"verif/harness/mon"
 )
@@ -46,6 +48,11 @@ func main() {
 		return
 	}
 	debug.SetMaxStack(256 << 20)
+	// address-space cap: a runaway allocation ends as an attributed "out of memory" death instead of exhausting the machine
+	if mb, err := strconv.Atoi(os.Getenv("VERIF_AS_LIMIT_MB")); err == nil && mb > 0 {
+		lim := syscall.Rlimit{Cur: uint64(mb) << 20, Max: uint64(mb) << 20}
+		_ = syscall.Setrlimit(syscall.RLIMIT_AS, &lim)
+	}
 	name := fmt.Sprintf("%s-%d", *build, *shard)
 	pend := ""
 	if *out != "" {
